@@ -84,6 +84,17 @@ fn main() {
     run_part(&mut ctx, "Schemas", schemas::schemas);
     run_part(&mut ctx, "Regexes", regexes::regexes);
     run_part(&mut ctx, "HashSites", hashsites::hashsites);
+    // fingerprints of the anchored source files (token stream without comments/whitespace): ./check uses a changed
+    // fingerprint only to decide how hard to search (never as a verdict)
+    if let Ok(list) = std::fs::read_to_string("/verif/anchor_files.txt") {
+        for rel in list.lines().filter(|l| !l.trim().is_empty()) {
+            let h = match std::fs::read_to_string(ctx.repo.join(rel)).ok().and_then(|src| syn::parse_file(&src).ok()) {
+                Some(f) => { use std::hash::{Hash, Hasher}; let mut st = std::collections::hash_map::DefaultHasher::new(); quote::ToTokens::to_token_stream(&f).to_string().hash(&mut st); format!("{:016x}", st.finish()) }
+                None => "unparsable".to_string(),
+            };
+            println!("FPRINT {rel} {h}");
+        }
+    }
     for i in &ctx.items { println!("ITEM {i}"); }
     for b in &ctx.broken { println!("TIE-BROKEN {b}"); }
     if !ctx.broken.is_empty() { std::process::exit(3); }
